@@ -496,6 +496,19 @@ CLAIMED["C09"]["text"] += (" Round 8: the caller's file after a FAILING open (vl
 CLAIMED["C16"]["text"] += (" Round 8: KF-RDWR-FAILED-OPEN-FPE is repaired and no longer waived (a SIGFPE inside a failing SFM_RDWR open is a VIOLATION); error_exit_mode_releases_the_same (lean/SfProps/C09FailedOpen.lean): closing the failed "
                             "SFM_RDWR handle as a read handle runs the same release program, for every handle state.")
 
+# ---- round 8 (worker c15fix): the two open C15 findings are repaired (appended, the texts above are unchanged) ----
+CLAIMED["C15"]["text"] += (" Round 8: KF-C15-HEADER-POSITION and KF-C15-PARTIAL-FRAME are repaired, no C15 finding is open and the check waives nothing. Seek latch: psf_fseek records a failure in psf->file.seek_failed, "
+                            "psf_fwrite transfers nothing until a psf_fseek succeeds (Sf.Faults.seekFailed = a function of the callback history, fwrite; old rule fwriteOld); paf_write_header seeks to offset 0. "
+                            "SfProps/C15Latch.lean: header_write_contained (au / wav header rewrites change no byte at or behind the header length, memory store under ANY fault), write_refused_after_failed_seek "
+                            "(every oracle), failed_seek_latches, latch_only_moved_by_seeks, header_over_audio_old_rule. Whole frames: the 18 read / write wrappers round a count that ends inside a frame down and clear "
+                            "psf->last_op (Sf.Faults.wholeFrames); SfProps/C15.lean: position_matches_count and position_matches_count_write at FULL strength for every oracle, partial_frame_clears_last_op, "
+                            "next_read_seeks_after_partial_frame, position_matches_count_exact_old_rule (the former class was exact), readTail_eq_old_outside_class. The prefix clause exempts only the bytes of a torn "
+                            "frame (a fragment the write call did not report; iolog verdict ranges= vs c15lib.torn_regions).")
+CLAIMED["C05"]["text"] += (" Round 8: 'a whole number of frames' holds under failing I/O as well (KF-C15-PARTIAL-FRAME repaired: Sf.C15.position_matches_count / position_matches_count_write, every oracle; "
+                            "SfProps/C15.lean now also belongs to C05).")
+CLAIMED["C14"]["text"] += (" Round 8: psf->file.seek_failed on the three routes (lean/SfModel/RoutesLatch.lean over Sf.Routes; `sfmodel routes` runs the shim cases on it): SfProps/C14Latch.lean -- fwriteL_latched "
+                            "(with the flag set psf_fwrite transfers nothing and touches neither file, store nor shim: the same answer on every route), fseekL_obs / fseekL_vio_latch / fseekL_fd_latch / fseekL_pipe_keeps, "
+                            "runL_eq_run_of_clear (a run in which no seek fails is a run of Sf.Routes: routes_equivalent and the other C14 theorems hold for the repaired code on such runs).")
 
 def main():
     checks = []
